@@ -267,7 +267,9 @@ func (p *renderState) renderExpression(expr ast.Expression, wrap bool, dot bool)
 			}
 		} else {
 			if wrap {
-				result = template.HTMLEscapeString(expr.Value)
+				// an action, not text spliced into the source: neighbouring trim markers must not eat the literal's
+				// own white space, and "{{" inside it must not be read as a delimiter
+				result = `{{` + fmt.Sprintf(`%q`, template.HTMLEscapeString(expr.Value)) + `}}`
 			} else {
 				result = fmt.Sprintf(`%q`, expr.Value)
 			}
